@@ -198,22 +198,36 @@ def rule_call_direct(prog, rep, tier):
 
 
 # ---------------------------------------------------------------------------- dispatch tables
+def _table_rows(prog, value):
+    """rows of a dispatch table expression: {const: (refs...)} or OrderedDict/dict(((const, (refs...)), ...))"""
+    pairs = None
+    if isinstance(value, ast.Dict) and value.keys and all(isinstance(v, ast.Tuple) for v in value.values):
+        pairs = list(zip(value.keys, value.values))
+    elif isinstance(value, ast.Call) and (value.func.id if isinstance(value.func, ast.Name) else "") in ("OrderedDict", "dict") and len(value.args) == 1 \
+            and isinstance(value.args[0], (ast.Tuple, ast.List)) and value.args[0].elts \
+            and all(isinstance(e, ast.Tuple) and len(e.elts) == 2 and isinstance(e.elts[1], ast.Tuple) for e in value.args[0].elts):
+        pairs = [(e.elts[0], e.elts[1]) for e in value.args[0].elts]
+    if not pairs:
+        return None
+    rows = []
+    for k, v in pairs:
+        if not isinstance(k, ast.Constant):
+            return None
+        vals = []
+        for e in v.elts:
+            tg = prog.resolve_expr_fn(e, e)
+            vals.append(tg[0] if tg else None)
+        rows.append((k.value, vals))
+    return rows if any(isinstance(x, FunctionInfo) for _, vals in rows for x in vals) else None
+
+
 def _tables(prog, fi):
-    """dict-literal tables in fi: name -> list of (key, [row values])"""
+    """dispatch tables defined in fi or at module level of fi's module: name -> list of (key, [row values])"""
     out = {}
-    for n in ast.walk(fi.node):
-        if isinstance(n, ast.Assign) and isinstance(n.value, ast.Dict) and n.value.keys and all(isinstance(v, ast.Tuple) for v in n.value.values):
-            rows = []
-            for k, v in zip(n.value.keys, n.value.values):
-                if not isinstance(k, ast.Constant):
-                    rows = None
-                    break
-                vals = []
-                for e in v.elts:
-                    tg = prog.resolve_expr_fn(e, e)
-                    vals.append(tg[0] if tg else None)
-                rows.append((k.value, vals))
-            if rows and any(isinstance(x, FunctionInfo) for _, vals in rows for x in vals):
+    for n in list(ast.walk(fi.node)) + list(fi.module.tree.body):
+        if isinstance(n, ast.Assign):
+            rows = _table_rows(prog, n.value)
+            if rows:
                 for t in n.targets:
                     if isinstance(t, ast.Name):
                         out[t.id] = rows
@@ -291,24 +305,31 @@ def rule_call_dispatch(prog, rep, tier, anchor="conformance.ground_truth"):
                             analyse(t, sub, rowkey, depth + 1, chain + [fn.qualname])
 
     for tname, rows in tables.items():
-        # names bound from the table in the anchor
-        bind_names = None
-        for n in ast.walk(fi.node):
-            tgt = None
-            if isinstance(n, ast.Assign) and isinstance(n.value, ast.Subscript) and isinstance(n.value.value, ast.Name) and n.value.value.id == tname:
-                tgt = n.targets[0]
-                keyvar = None
-            elif isinstance(n, ast.For) and isinstance(n.iter, ast.Call) and isinstance(n.iter.func, ast.Attribute) and n.iter.func.attr == "items" \
-                    and isinstance(n.iter.func.value, ast.Name) and n.iter.func.value.id == tname and isinstance(n.target, ast.Tuple) and len(n.target.elts) == 2:
-                tgt = n.target.elts[1]
-            if isinstance(tgt, ast.Tuple) and all(isinstance(e, ast.Name) for e in tgt.elts):
-                bind_names = [e.id for e in tgt.elts]
-        if bind_names is None:
-            raise AnalysisError("CALL: table %s in %s is never unpacked into variables" % (tname, anchor))
-        for key, vals in rows:
-            if len(vals) != len(bind_names):
+        # every function of the module that unpacks a row of the table into variables is analysed with those variables
+        n_unpack = 0
+        for f in [x for x in fi.module.functions.values()]:
+            bind_names = None
+            for n in ast.walk(f.node):
+                if enclosing_fn(n) is not f:
+                    continue
+                tgt = None
+                if isinstance(n, ast.Assign) and isinstance(n.value, ast.Subscript) and isinstance(n.value.value, ast.Name) and n.value.value.id == tname:
+                    tgt = n.targets[0]
+                elif isinstance(n, ast.For) and isinstance(n.iter, ast.Call) and isinstance(n.iter.func, ast.Attribute) and n.iter.func.attr == "items" \
+                        and isinstance(n.iter.func.value, ast.Name) and n.iter.func.value.id == tname and isinstance(n.target, ast.Tuple) and len(n.target.elts) == 2:
+                    tgt = n.target.elts[1]
+                if isinstance(tgt, ast.Tuple) and all(isinstance(e, ast.Name) for e in tgt.elts):
+                    names_ = [e.id for e in tgt.elts]
+                    bind_names = names_ if bind_names is None else [a if a != "_" else b for a, b in zip(bind_names, names_)]
+            if bind_names is None:
                 continue
-            analyse(fi, dict(zip(bind_names, vals)), key, 0, [])
+            n_unpack += 1
+            for key, vals in rows:
+                if len(vals) != len(bind_names):
+                    continue
+                analyse(f, {nm: v for nm, v in zip(bind_names, vals) if nm != "_"}, key, 0, [])
+        if n_unpack == 0:
+            raise AnalysisError("CALL: table %s in %s is never unpacked into variables" % (tname, anchor))
     if n_sites[0] < 3:
         raise AnalysisError("CALL: only %d dispatch call sites found from %s" % (n_sites[0], anchor))
 
@@ -326,9 +347,9 @@ def rule_call_getattr(prog, rep, tier, anchors=("gen.gen",)):
                 choices.setdefault(o.dest, set()).update(o.choices)
     n = 0
     for q in anchors:
-        fi = prog.fn(q)
+        fi0 = prog.fn(q)
         ordinal = 0
-        for c in sorted((c for c in ast.walk(fi.node) if isinstance(c, ast.Call)), key=lambda c: (c.lineno, c.col_offset)):
+        for fi, c in sorted(((f_, c_) for f_ in prog.region(fi0) if f_.parent_fn is None for c_ in ast.walk(f_.node) if isinstance(c_, ast.Call)), key=lambda fc: (fc[1].lineno, fc[1].col_offset)):
             g = c.func
             if isinstance(g, ast.Name) and prog.lookup(g.id, c)[0] == "local":
                 defs = [n2 for n2 in ast.walk(fi.node) if isinstance(n2, ast.Assign) and any(isinstance(t, ast.Name) and t.id == g.id for t in n2.targets)]
@@ -348,7 +369,7 @@ def rule_call_getattr(prog, rep, tier, anchors=("gen.gen",)):
             dom = {}
             for v in sorted(free):
                 bb = prog.lookup(v, c)
-                if bb[0] == "param" and bb[1] is fi.node and v in choices:
+                if bb[0] == "param" and isinstance(bb[1], (ast.FunctionDef, ast.AsyncFunctionDef)) and v in choices:
                     dom[v] = sorted(choices[v])
                 elif bb[0] == "local" and v in {x.id for x in ast.walk(g.args[1]) if isinstance(x, ast.Name)} | {x.id for x in ast.walk(c) if isinstance(x, ast.Name)} and _is_bool_switch(fi.node, v):
                     dom[v] = [True, False]
